@@ -12,7 +12,8 @@ RL10 = [(p, s.replace(b"1.1", b"1.0")) for p, s in RL11]
 RLBAD = [b"GET /p HTTP/2.0", b"GET /p HTTP/1.1 ", b"get /p HTTP/1.1", b"GET /p", b"GET  HTTP/1.1",
          b"GET /p HTTP/1.10", b"GET /p http/1.1", b"G\x00T /p HTTP/1.1", b"GET /p HTTP/0.9",
          b"GET /p HTTP/1.1\x0b", b" GET /p HTTP/1.1", b"GE(T /p HTTP/1.1", b"GET /p HTTP/11", b"/p HTTP/1.1",
-         b"GET /p HTTP/1", b"GET /p HTTP/1.\xb2"]
+         b"GET /p HTTP/1", b"GET /p HTTP/1.\xb2", b"GET /p HTTP/1.1\nContent-Length: 5", b"GET /p HTTP/1.1\rX: y",
+         b"GET /p HTTP/1.1\tx", b"GET /p HTTP/1.1;", b"GET /p HTTP/1.1\xef\xbc\x91"]
 
 PX_OK = [b"PROXY TCP4 1.2.3.4 5.6.7.8 1111 2222", b"PROXY TCP6 ::1 2001:db8::2 1 65535", b"PROXY TCP4 255.255.255.255 0.0.0.0 0 0"]
 PX_BAD = [b"PROXY TCP4 1.2.3.4 5.6.7.8 1111", b"PROXY UNKNOWN", b"PROXY TCP4 999.1.1.1 1.1.1.1 1 2", b"PROXY TCP4 1.2.3.4 5.6.7.8 70000 1",
@@ -30,7 +31,10 @@ HDR = {
     "CLbad": [b"Content-Length: +1", b"Content-Length: 1_0", b"Content-Length: 0x1", b"Content-Length: 1 2",
               b"Content-Length: 1,1", b"Content-Length: ", b"Content-Length: -1", b"Content-Length: 1.0",
               b"Content-Length: \xb2", b"Content-Length: 1e1", b"Content-Length: \xbd", b"Content-Length:",
-              b"Content-Length: 1\x0b", b"Content-Length: \x0c1", b"Content-Length: 1;1", b"Content-Length: one"],
+              b"Content-Length: 1\x0b", b"Content-Length: \x0c1", b"Content-Length: 1;1", b"Content-Length: one",
+              # digits of other scripts, as UTF-8 (fullwidth five, Arabic-Indic one, superscript two)
+              b"Content-Length: \xef\xbc\x95", b"Content-Length: \xd9\xa1", b"Content-Length: 1\xef\xbc\x90",
+              b"Content-Length: \xc2\xb2"],
     "TEchunked": [b"Transfer-Encoding: chunked", b"transfer-encoding:chunked", b"Transfer-Encoding: \tChunked ",
                   b"TRANSFER-ENCODING: CHUNKED"],
     "TEgzipchunked": [b"Transfer-Encoding: gzip, chunked", b"Transfer-Encoding: deflate,chunked",
@@ -43,7 +47,10 @@ HDR = {
                   b"Transfer-Encoding: br, chunked", b"Transfer-Encoding: chunkedx", b"Transfer-Encoding: x-gzip"],
     "TEnontoken": [b"Transfer-Encoding: chu nked", b'Transfer-Encoding: "chunked"', b"Transfer-Encoding: chunked\x01",
                    b"Transfer-Encoding: \x7fchunked", b"Transfer-Encoding: chunked chunked",
-                   b"Transfer-Encoding: [chunked]"],
+                   b"Transfer-Encoding: [chunked]",
+                   # letters that case-fold to ASCII, as UTF-8 (KELVIN SIGN for k, LATIN SMALL LETTER LONG S ...)
+                   b"Transfer-Encoding: chun\xe2\x84\xaaed", b"Transfer-Encoding: \xef\xbd\x83hunked",
+                   b"Transfer-Encoding: chunk\xc3\xa9d"],
     "TEpyws": [b"Transfer-Encoding: " + w + b"chunked" for w in PYWS]
               + [b"Transfer-Encoding: chunked" + w for w in PYWS]
               + [b"Transfer-Encoding: gzip," + w + b"chunked" for w in PYWS[:3]],
